@@ -519,10 +519,10 @@ func encodeNumber(x float64) encodedNumber {
 	// TODO(voss): consider using t2dup here.
 	// TODO(voss): also consider fractions of two one-byte integers?
 
-	if math.Abs(x) >= 32768 {
+	if math.Abs(x) >= 32768-0.5/65536 {
 		// Type 2 numbers are 16.16 fixed point values: differences between
-		// two coordinates in [-32000, 32000] may be out of range and are
-		// written as a sum of two numbers.
+		// two coordinates in [-32000, 32000] may be out of range (also after
+		// rounding to 16.16) and are written as a sum of two numbers.
 		a := encodeNumber(math.Round(x / 2))
 		b := encodeNumber(x - a.Val)
 		code = append(code, a.Code...)
